@@ -6,6 +6,7 @@
 -/
 import VM.Proofs.LocationsProof
 import VM.Proofs.CollisionProof
+import VM.Proofs.PipelineProof
 namespace VM.C09
 open VM Sw
 
@@ -155,5 +156,49 @@ example : ¬ Unambiguous .dflt defA "definitions.a" [] := fun h => absurd h.1 (b
 example : ¬ Unambiguous .dflt defColl "definitions.D" [] := fun h => absurd h.2.1 (by decide)
 example : noOverlap .dflt defA "definitions.Pet" = true := by decide
 example : noOverlap .dflt defA "definitions.a" = false := by decide
+
+/-! ### through the pipeline: the value stages are not gated on each other
+
+`(*SpecValidator).Validate` stops early at three points only, all of them *before* the default stage. Once a run gets past the
+third one — in the default mode that means: no stage before found an error — the default stage's errors and the example
+stage's warnings are both in the result, whatever the other one found. -/
+
+/-- the run reaches the value stages: stopping was not asked for, or nothing before them failed -/
+def ReachesValueStages (cont : Bool) (s : Stages) : Prop :=
+  cont = true ∨ (mergeAll ((({} : Res).mergeOne s.schemaPass).mergeOne s.refsValid) (s.middle cont)).errors = []
+
+theorem C09_value_stages_both_reported (cont : Bool) (s : Stages) (h : ReachesValueStages cont s) (m : Msg) :
+    (m ∈ s.defaults.errors → m ∈ (runStages cont s).errors)
+    ∧ (m ∈ s.examples.warnings → m ∈ (runStages cont s).warnings) := by
+  have hlate : runStages cont s
+      = mergeAll (mergeAll ((({} : Res).mergeOne s.schemaPass).mergeOne s.refsValid) (s.middle cont)) s.late := by
+    rcases h with h | h
+    · subst h; simp [runStages]
+    · cases cont
+      · have h3 := h
+        have h2 : ((({} : Res).mergeOne s.schemaPass).mergeOne s.refsValid).errors = [] := by
+          apply List.eq_nil_iff_forall_not_mem.mpr
+          intro x hx
+          have : x ∈ (mergeAll ((({} : Res).mergeOne s.schemaPass).mergeOne s.refsValid) (s.middle false)).errors :=
+            (mem_mergeAll_errors _ _ _).mpr (Or.inl hx)
+          rw [h3] at this; cases this
+        have h1 : (({} : Res).mergeOne s.schemaPass).errors = [] := by
+          apply List.eq_nil_iff_forall_not_mem.mpr
+          intro x hx
+          have : x ∈ ((({} : Res).mergeOne s.schemaPass).mergeOne s.refsValid).errors :=
+            (mem_mergeOne_errors _ _ _).mpr (Or.inl hx)
+          rw [h2] at this; cases this
+        simp [runStages, h1, h2, h3]
+      · simp [runStages]
+  rw [hlate]
+  constructor
+  · intro hm
+    exact (mem_mergeAll_errors _ _ _).mpr (Or.inr ⟨s.defaults, by simp [Stages.late], hm⟩)
+  · intro hm
+    exact (mem_mergeAll_warnings _ _ _).mpr (Or.inr ⟨s.examples, by simp [Stages.late], hm⟩)
+
+/-- non-vacuity: a bad default and a bad example in a document that is otherwise clean, default mode -/
+example : ReachesValueStages false { defaults := { errors := [mkMsg "d" []] }, examples := { warnings := [mkMsg "e" []] } } :=
+  Or.inr (by decide)
 
 end VM.C09
